@@ -238,7 +238,7 @@ pub fn property(ctx: &Ctx) -> Property {
             "for shapes the exact model does not cover (curves, strokes, general transforms) zero coverage is read from a white SrcOver render of the same geometry: shares the rasteriser (judged by C01/C04/C08), not the compositing route under test",
             "mask() under a singular transform is not judged here (C11 accepts either reading)",
         ],
-        parts: vec![part("one-call", 40_000, 1_200_000, move || strategy(&c), check)],
+        parts: vec![part("one-call", 160_000, 2_000_000, move || strategy(&c), check)],
         min_class_fraction: vec![("one-call", "erasing-mode", 0.15), ("one-call", "clipped", 0.4), ("one-call", "op:stroke", 0.05), ("one-call", "op:mask", 0.05), ("one-call", "layer-open", 0.1), ("one-call", "clip-path", 0.2)],
         panic_is_violation: false,
     }
